@@ -29,7 +29,7 @@ CHUNK = 8
 
 def in_plane(k):
     rots = [0.0, math.pi / 2, math.pi / 7, 3 * math.pi / 7, math.pi, 5 * math.pi / 7, -math.pi / 2, 2.0]
-    scales = [1.0, 1.0, 2.0**-10, 1e3, 1e-3, 1.0, 2.0**10, 1.0]
+    scales = [1.0, 1.0, 2.0**-10, 1e3, 1e-3, 1.0, 2.0**10, 1e-9]
     shifts = [(0.0, 0.0), (3.0, -2.0), (0.0, 0.0), (-7.0, 0.5), (10.0, 4.0), (-1.0, -9.0), (0.0, 0.0), (5.0, 5.0)]
     return {"phi": rots[k % 8], "scale": scales[(k // 2) % 8], "shift": list(shifts[(k // 3) % 8])}
 
@@ -46,6 +46,11 @@ def cases(tier):
     for w, h in ((1, 1), (3, 1), (1, 3), (2, 3)):
         cores.append(("rect", [[0, 0], [w, 0], [w, h], [0, h]]))
         cores.append(("rect", [[-w, -h], [0, -h], [0, 0], [-w, 0]]))
+    # steep but not vertical / shallow but not horizontal edges (dx/|x| ~ 1e-6): an 'is it vertical?' test with a
+    # tolerance would treat them as exactly vertical
+    for eps in (1e-6, -1e-6, 3e-5):
+        cores.append(("steep", [[0, 0], [2, 0], [2 + eps, 3], [0, 3 - eps]]))
+        cores.append(("steep", [[-1, -2], [1, -2 + eps], [1 - eps, 1], [-1, 1]]))
     for name, poly in cores:
         for order in ("ccw", "cw"):
             out.append({"kind": "polygon", "poly": poly, "order": order, "pl": in_plane(k), "fam": name})
@@ -77,8 +82,8 @@ def placed_polygon(case):
         base = np.array(A.regular_ngon(case["ngon"], 0.0), float)
         cen0 = np.zeros(2)
     else:
-        poly = [tuple(p) for p in case["poly"]]
-        base = np.array(poly, float)
+        poly = [tuple(Fr(float(x)) for x in p) for p in case["poly"]]  # floats are rationals: exact centroid
+        base = np.array([[float(x) for x in p] for p in poly], float)
         Aex, Sx, Sy, *_ = X.polygon_moments(poly)
         cen0 = np.array([float(Sx / Aex), float(Sy / Aex)])
     c, s_ = math.cos(pl["phi"]), math.sin(pl["phi"])
